@@ -130,6 +130,9 @@ def structure_problems(doc):
                     out.append(('section-child', 'section %s holds bare text %r' % (_nm(n), str(c)[:30])))
                 continue
             cl = getattr(c, 'level', None)
+            c_is_sec = cl is not None and Node.DOCUMENT_LEVEL < cl < END and c.nodeType == ELEMENT
+            if c_is_sec and not is_sec and n is not doc and getattr(n, 'level', None) != Node.DOCUMENT_LEVEL:
+                out.append(('section-inside-non-section', 'sectioning unit %s (level %s) is a child of %s (level %s)' % (_nm(c), cl, _nm(n), lvl)))
             if is_sec:
                 if cl == PAR:
                     pass
